@@ -2,6 +2,7 @@ package dec
 
 import (
 	"fmt"
+	"regexp"
 	"runtime/debug"
 	"runtime/metrics"
 	"strings"
@@ -44,11 +45,7 @@ func topRepoFrame(stack string) string {
 			if j := strings.LastIndex(f, "("); j > 0 {
 				f = f[:j]
 			}
-			// closures: keep "func1" style suffixes out of the signature
-			if k := strings.Index(f, ".func"); k > 0 {
-				f = f[:k]
-			}
-			return f
+			return cleanFrame(f)
 		}
 	}
 	return "unknown"
@@ -109,13 +106,21 @@ func fatalSite(stack string) string {
 			if j := strings.LastIndex(f, "("); j > 0 {
 				f = f[:j]
 			}
-			if k := strings.Index(f, ".func"); k > 0 {
-				f = f[:k]
-			}
-			return f
+			return cleanFrame(f)
 		}
 	}
 	return "unknown"
+}
+
+var hookSeg = regexp.MustCompile(`VerifC15\w+\.`)
+
+// cleanFrame drops closure suffixes ("func1") and the names of verif hook functions a
+// production closure was inlined into, so that the signature names production code only.
+func cleanFrame(f string) string {
+	if k := strings.Index(f, ".func"); k > 0 {
+		f = f[:k]
+	}
+	return hookSeg.ReplaceAllString(f, "")
 }
 
 func shortStack(s string) string {
